@@ -12,7 +12,7 @@ KINDS = ["rel", "abs_src", "abs_out", "dangling", "dirlink", "chain", "abs_dir_s
 
 def build(base, r):
     src, dst, out = base + "/src", base + "/dst", base + "/outside"
-    os.makedirs(src + "/d"); os.makedirs(out); os.makedirs(dst)
+    os.makedirs(src + "/d"); os.makedirs(src + "/d2"); os.makedirs(out + "/sub"); os.makedirs(dst)
     for name, data in (("t1.txt", b"one"), ("t2.txt", b"twotwo"), ("d/in.txt", b"inner")):
         with open(os.path.join(src, name), "wb") as f:
             f.write(data)
@@ -24,8 +24,8 @@ def build(base, r):
 
 def target_of(kind, src, out, alt=False):
     return {"rel": "t2.txt" if alt else "t1.txt", "abs_src": src + ("/t2.txt" if alt else "/t1.txt"), "abs_out": out + "/o.txt",
-            "dangling": "nowhere2" if alt else "nowhere", "dirlink": "d", "chain": "rel_helper",
-            "abs_dir_src": src + "/d", "abs_dir_out": out}[kind]
+            "dangling": "nowhere2" if alt else "nowhere", "dirlink": "d2" if alt else "d", "chain": "rel_helper",
+            "abs_dir_src": src + ("/d2" if alt else "/d"), "abs_dir_out": out + ("/sub" if alt else "")}[kind]
 
 
 def cwd_class(target, cwd, ids):
@@ -66,22 +66,29 @@ def run(tier, seed, pid=PID):
             src, dst, out = build(base, r)
             mode = r.choice(["preserve", "preserve", "follow", "skip"])
             kind = KINDS[i % len(KINDS)]
+            forced = (i % 10 == 9 and pid != "C02")      # the known follow-mode class (C17-KF1) is exercised on every run
+            if forced:
+                mode, kind = "follow", ("rel" if i % 20 == 9 else "chain")
             if kind == "chain":
                 os.symlink("t1.txt", src + "/rel_helper")
             tids, cids = {}, {}
             lpath, dpath = src + "/lnk", dst + "/lnk"
             # prior destination entry
             prior = r.choice(["absent", "absent", "samelink", "otherlink", "file", "dir"])
+            if forced:
+                prior = "absent"
             if prior == "samelink":
                 os.symlink(target_of(kind, src, out), dpath)
             elif prior == "otherlink":
-                os.symlink(r.choice(["elsewhere", out + "/o.txt", src + "/t2.txt"]), dpath)
+                os.symlink(r.choice(["elsewhere", out + "/o.txt", src + "/t2.txt", out, "."]), dpath)   # incl. links that resolve to a directory
             elif prior == "file":
                 open(dpath, "w").write("user file")
             elif prior == "dir":
                 os.makedirs(dpath)
             dinit = dclass(dpath, tids, cids)
             cwd = r.choice([sc.dir, src])
+            if forced:
+                cwd = sc.dir
             steps, outs = [], []
             nruns = r.randrange(1, 4) if pid != "C02" else r.randrange(2, 4)
             b_src = b_out = None
